@@ -31,6 +31,8 @@ MODES = (
     ("lazy", "lazy"),  # substituted under lazy, then reinterpreted eagerly
     ("reflect", "reflect"),  # a lazily built Subs term: inputs must be EXACTLY the predicted ones
     ("normalize", "normalize"),
+    ("reflect", "eager"),  # f is a fully lazy term (e.g. a Subs object): substitution into it under eager
+    ("reflect", "lazy"),
 )
 
 
@@ -58,6 +60,8 @@ def f_pool(tier):
         ("Stack", "k", (("B", "mul", ti, x), tj)),
         ("Cat", "i", (ti, tik), "i"),
         ("Cat", "l", (tij, tij), "j"),
+        ("Cat", "p", (T(("p",), lid=68, sizes={"p": 5}), T(("p",), lid=69, sizes={"p": 4})), "p"),
+        ("Cat", "p", (T(("p", "i"), lid=70, sizes={"p": 3}), T(("p",), lid=71, sizes={"p": 2}), T(("i", "p"), lid=72, sizes={"p": 4})), "p"),
         ("Slice", "i", 0, 3, 1, 3),
         ("Slice", "j", 1, 4, 2, 4),
         ("Lam", "j", 3, tij),
